@@ -5,7 +5,15 @@ in this process, after pickling, after `cached_tasks` reconstruction (real Pickl
 in two freshly started interpreters with different PYTHONHASHSEED; plus normal form and dependencies.
 Monitors (model-independent): within every batch, tasks that differ (Python `!=`, or type-exactly) never
 share a key and tasks built the same way (also respelled list/tuple, dict/frozendict) always do; every
-key is accepted by `LocalStorage.exists`."""
+key is accepted by `LocalStorage.exists`.
+Task types include one with a non-ASCII identifier (ptasks.Étude, also in ptasks2) and one whose cache format has a KEY_PREFIX
+with a hyphen, a space and a non-ASCII letter (ptasks.Archive / DashCache): their keys go through the same monitors
+(accepted by LocalStorage, listed and rebuilt exactly once by cached_tasks).
+Instances of scalar subclasses (Celsius(float), str / int subclasses, numpy.float64 / numpy.str_) and str-subclass dict keys
+((str, Enum) / StrEnum members, ...) are generated at every depth.  The Lean model is given their base scalar / plain str
+(json.dumps writes them so), so "key == key of the plain value" is part of the correspondence; monitor-only for them:
+determinism (second build, pickling, fresh interpreters), acceptance by LocalStorage, reconstruction as the base value, and
+no key shared with a task that differs in more than the subclass."""
 import collections
 import json
 import pickle
@@ -17,8 +25,8 @@ import time
 import paramgen as pg
 import paramrun as pr
 
-RULE = ('distinct generated constructor calls (root task of 10 types incl. same-named types of two modules and the '
-        'prefix pair Exp/Experiment; enum members of 15 classes incl. same-named classes of two modules and classes nested in '
+RULE = ('distinct generated constructor calls (root task of 13 types incl. same-named types of two modules, the '
+        'prefix pair Exp/Experiment, a type with a non-ASCII identifier and a cache format whose KEY_PREFIX has a hyphen, a space and a non-ASCII letter; enum members of 15 classes incl. same-named classes of two modules and classes nested in '
         'holder classes - dotted qualified names, same __name__ in two holders) whose parameter tree has depth >= 2 and '
         'contains a nested task pair, an enum member or a list/dict to normalise')
 
@@ -90,7 +98,7 @@ def check_batch(specs, reals, viol, dist):
     for i, r in enumerate(reals):
         if r['status'] == 'ok':
             by_key[(type(r['task']).__module__ if r['key'] == 'null' else '', r['key'])].append(i)
-            by_nf[r['nf']].append(i)
+            by_nf[pg.strip_marks(r['nf'])].append(i)   # (a scalar-subclass instance counts as the plain value it is == to)
     for (_, key), idx in by_key.items():
         if key == 'null' or len(idx) < 2:
             continue
@@ -98,7 +106,7 @@ def check_batch(specs, reals, viol, dist):
         for j in idx[1:]:
             ta, tb = reals[first]['task'], reals[j]['task']
             # differing only in dict key order is not "different" for the property (Python-equal, same types)
-            if ta != tb or pg.show(ta, canon=True) != pg.show(tb, canon=True):
+            if ta != tb or pg.strip_marks(pg.show(ta, canon=True)) != pg.strip_marks(pg.show(tb, canon=True)):
                 dist['collisions'] += 1
                 viol.append(collision_violation(specs[first], specs[j], ta, tb,
                                                 'python-unequal' if ta != tb else 'differ in the type of a value'))
@@ -136,7 +144,8 @@ def _single_tree_alarms(spec, real, storage):
             storage.exists(real['key'])
         except Exception as e:
             out.append(f'LocalStorage.exists rejects the key {real["key"]!r}: {type(e).__name__}')
-    for proto in (0, pickle.HIGHEST_PROTOCOL):
+    # lowest and highest protocol (the lowest is 3 for a class with a non-ASCII name: CPython limit, see pr.usable_protos)
+    for proto in (pr.usable_protos(spec, range(pickle.HIGHEST_PROTOCOL))[0], pickle.HIGHEST_PROTOCOL):
         u = pickle.loads(pickle.dumps(t, protocol=proto))
         if u.cache_key != t.cache_key:
             out.append(f'cache_key changed by pickling (protocol {proto})')
@@ -172,7 +181,7 @@ def reconstruction_keys(specs, reals, viol, disagreements, dist):
                                  replay=dict(kind='tree', spec=None)))
                 continue
             s, r = saved[u.cache_key]
-            if pg.show(u) != r['nf']:
+            if pg.show(u) != pg.strip_marks(r['nf']) or not (u == r['task'] and hash(u) == hash(r['task'])):
                 viol.append(dict(what='task reconstructed from cache metadata differs from the saved one (same key)',
                                  replay=dict(kind='tree', spec=s)))
         for k, (s, r) in saved.items():
@@ -416,6 +425,9 @@ def run(ctx):
             for group in rnd.sample(pr.mixin_groups(), 12):
                 for g in group:
                     specs.append(g); tags.append('mixin-group')
+            # fixed constructor calls with numpy.float64 / numpy.str_ parameters (see paramgen.numpy_probes)
+            for g in pg.numpy_probes():
+                specs.append(g); tags.append('numpy-probe')
             while len(specs) < n:
                 g = pg.Gen(rnd, max_depth=rnd.randrange(2, depth + 1), malformed=0.0)
                 s = g.task(0)
@@ -440,6 +452,10 @@ def run(ctx):
                 dist['depth:%d' % st['depth']] += 1
                 dist['nodes:%s' % ('1-5' if st['nodes'] <= 5 else '6-20' if st['nodes'] <= 20 else '21+')] += 1
                 dist['root:%s.%s' % (s[1], s[2])] += 1
+                if st['subs']:
+                    dist['with_scalar_subclass_instance'] += 1
+                if st['skeys']:
+                    dist['with_str_subclass_dict_key'] += 1
                 dist['status:' + r['status']] += 1
                 for diff in pr.compare(s, r, m):
                     dis.append(dict(spec=s, diff=diff))
@@ -456,7 +472,7 @@ def run(ctx):
                 for a in single_tree_alarms(s, r, storage):
                     viol.append(dict(what=a, replay=dict(kind='tree', spec=s)))
                 # planted neighbour right after its base
-                if tag not in ('base', 'mixin-group') and reals[i - 1]['status'] == 'ok':
+                if tag not in ('base', 'mixin-group', 'numpy-probe') and reals[i - 1]['status'] == 'ok':
                     b = reals[i - 1]
                     if tag == 'respelled':
                         try:
@@ -467,7 +483,7 @@ def run(ctx):
                             viol.append(dict(what='list/tuple or dict/frozendict respelling of the same parameters changed the task or its key',
                                              replay=dict(kind='pair', a=specs[i - 1], b=s)))
                     elif (b['key'] == r['key'] and b['key'] != 'null'
-                          and (b['task'] != r['task'] or pg.show(b['task'], canon=True) != pg.show(r['task'], canon=True))):
+                          and (b['task'] != r['task'] or pg.strip_marks(pg.show(b['task'], canon=True)) != pg.strip_marks(pg.show(r['task'], canon=True)))):
                         viol.append(collision_violation(specs[i - 1], s, b['task'], r['task'], 'planted neighbour ' + tag))
                 if len(samples) < 4 and pr.nontrivial(s):
                     samples.append(dict(call=pr.trim(s), key=r['key'], tag=tag))
